@@ -403,7 +403,16 @@ class SimpleOperationExecutor:
         Raises:
             OSError: If an OS error occurred.
         """
-        subfiles = os.listdir(dir_)
+        try:
+            subfiles = os.listdir(dir_)
+        except OSError:
+            if (created_files is None or
+                    not created_files.has_norm_cased_dir(
+                        os.path.normcase(dir_))):
+                raise
+            # The directory is only present in created_files, not in the real
+            # file system
+            subfiles = []
         if created_files is not None:
             norm_cased_subfiles = set(
                 [os.path.normcase(subfile) for subfile in subfiles])
